@@ -687,3 +687,97 @@ impl FileSystem for ScriptFs {
     }
     // id_remap*: trait defaults (no-ops), as for any plain filesystem
 }
+
+// ------------------------------------------------------------------------------------------------
+// The same scripted filesystem through the asynchronous trait: same log lines, same answers.
+
+#[cfg(feature = "asyncio")]
+mod asyncfs {
+    use super::*;
+    use async_trait::async_trait;
+    use fuse_backend_rs::api::filesystem::{AsyncFileSystem, AsyncZeroCopyReader, AsyncZeroCopyWriter};
+
+    #[async_trait]
+    impl AsyncFileSystem for ScriptFs {
+        async fn async_lookup(&self, ctx: &Context, parent: u64, name: &CStr) -> io::Result<Entry> {
+            FileSystem::lookup(self, ctx, parent, name)
+        }
+        async fn async_getattr(&self, ctx: &Context, inode: u64, handle: Option<u64>) -> io::Result<(stat64, Duration)> {
+            FileSystem::getattr(self, ctx, inode, handle)
+        }
+        async fn async_setattr(&self, ctx: &Context, inode: u64, attr: stat64, handle: Option<u64>, valid: SetattrValid) -> io::Result<(stat64, Duration)> {
+            FileSystem::setattr(self, ctx, inode, attr, handle, valid)
+        }
+        async fn async_open(&self, ctx: &Context, inode: u64, flags: u32, fuse_flags: u32) -> io::Result<(Option<u64>, OpenOptions)> {
+            FileSystem::open(self, ctx, inode, flags, fuse_flags).map(|(h, o, _)| (h, o))
+        }
+        async fn async_create(&self, ctx: &Context, parent: u64, name: &CStr, args: CreateIn) -> io::Result<(Entry, Option<u64>, OpenOptions)> {
+            FileSystem::create(self, ctx, parent, name, args).map(|(e, h, o, _)| (e, h, o))
+        }
+        async fn async_read(
+            &self,
+            ctx: &Context,
+            inode: u64,
+            handle: u64,
+            w: &mut (dyn AsyncZeroCopyWriter + Send),
+            size: u32,
+            offset: u64,
+            lock_owner: Option<u64>,
+            flags: u32,
+        ) -> io::Result<usize> {
+            struct Adapter<'a>(&'a mut (dyn AsyncZeroCopyWriter + Send));
+            impl io::Write for Adapter<'_> {
+                fn write(&mut self, b: &[u8]) -> io::Result<usize> {
+                    self.0.write(b)
+                }
+                fn flush(&mut self) -> io::Result<()> {
+                    Ok(())
+                }
+            }
+            impl ZeroCopyWriter for Adapter<'_> {
+                fn write_from(&mut self, f: &mut dyn fuse_backend_rs::file_traits::FileReadWriteVolatile, count: usize, off: u64) -> io::Result<usize> {
+                    self.0.write_from(f, count, off)
+                }
+                fn available_bytes(&self) -> usize {
+                    self.0.available_bytes()
+                }
+            }
+            FileSystem::read(self, ctx, inode, handle, &mut Adapter(w), size, offset, lock_owner, flags)
+        }
+        async fn async_write(
+            &self,
+            ctx: &Context,
+            inode: u64,
+            handle: u64,
+            r: &mut (dyn AsyncZeroCopyReader + Send),
+            size: u32,
+            offset: u64,
+            lock_owner: Option<u64>,
+            delayed_write: bool,
+            flags: u32,
+            fuse_flags: u32,
+        ) -> io::Result<usize> {
+            struct Adapter<'a>(&'a mut (dyn AsyncZeroCopyReader + Send));
+            impl io::Read for Adapter<'_> {
+                fn read(&mut self, b: &mut [u8]) -> io::Result<usize> {
+                    self.0.read(b)
+                }
+            }
+            impl ZeroCopyReader for Adapter<'_> {
+                fn read_to(&mut self, f: &mut dyn fuse_backend_rs::file_traits::FileReadWriteVolatile, count: usize, off: u64) -> io::Result<usize> {
+                    self.0.read_to(f, count, off)
+                }
+            }
+            FileSystem::write(self, ctx, inode, handle, &mut Adapter(r), size, offset, lock_owner, delayed_write, flags, fuse_flags)
+        }
+        async fn async_fsync(&self, ctx: &Context, inode: u64, datasync: bool, handle: u64) -> io::Result<()> {
+            FileSystem::fsync(self, ctx, inode, datasync, handle)
+        }
+        async fn async_fallocate(&self, ctx: &Context, inode: u64, handle: u64, mode: u32, offset: u64, length: u64) -> io::Result<()> {
+            FileSystem::fallocate(self, ctx, inode, handle, mode, offset, length)
+        }
+        async fn async_fsyncdir(&self, ctx: &Context, inode: u64, datasync: bool, handle: u64) -> io::Result<()> {
+            FileSystem::fsyncdir(self, ctx, inode, datasync, handle)
+        }
+    }
+}
